@@ -1282,8 +1282,9 @@ func loopsComplete(c *Ctx, rule string, fns []*ssa.Function, floor int) {
 					if inLoop(sb) {
 						continue
 					}
-					// leaving the loop from inside its body: allowed only if that path returns without re-joining
-					if !onlyReturns(sb, hdr) {
+					// leaving the loop from inside its body: allowed if that path returns without re-joining,
+					// or if it is a search that found something (the exit edge carries a value the normal exit does not)
+					if !onlyReturns(sb, hdr) && !foundBreak(b, sb, hdr) {
 						bad = "the loop can be left early at " + p.pos(b.Instrs[len(b.Instrs)-1].Pos())
 					}
 				}
@@ -1603,4 +1604,32 @@ func naturalLoop(hdr *ssa.BasicBlock) map[*ssa.BasicBlock]bool {
 		}
 	}
 	return body
+}
+
+// foundBreak: the early exit b -> sb delivers, through a phi of sb, a value
+// different from the one delivered by the loop's normal exit: a search that
+// stops because it found what it was looking for, not a skip.
+func foundBreak(b, sb, hdr *ssa.BasicBlock) bool {
+	bi, hi := -1, -1
+	for k, pb := range sb.Preds {
+		if pb == b {
+			bi = k
+		}
+		if pb == hdr {
+			hi = k
+		}
+	}
+	if bi < 0 || hi < 0 {
+		return false
+	}
+	for _, in := range sb.Instrs {
+		ph, ok := in.(*ssa.Phi)
+		if !ok {
+			break
+		}
+		if ph.Edges[bi] != ph.Edges[hi] {
+			return true
+		}
+	}
+	return false
 }
